@@ -922,6 +922,36 @@ impl TryFrom<AuthorizerPolicies> for Authorizer {
             authorizer.policies.push(policy);
         }
 
+        // the facts and rules must also be in the world that gets evaluated, as they are when
+        // an authorizer is built from an AuthorizerBuilder
+        let mut authorizer_origin = Origin::default();
+        authorizer_origin.insert(usize::MAX);
+        let authorizer_trusted_origins = TrustedOrigins::from_scopes(
+            &[],
+            &TrustedOrigins::default(),
+            usize::MAX,
+            &authorizer.public_key_to_block_id,
+        );
+        for fact in &authorizer.authorizer_block_builder.facts {
+            authorizer
+                .world
+                .facts
+                .insert(&authorizer_origin, fact.convert(&mut authorizer.symbols));
+        }
+        for rule in &authorizer.authorizer_block_builder.rules {
+            let rule = rule.convert(&mut authorizer.symbols);
+            let rule_trusted_origins = TrustedOrigins::from_scopes(
+                &rule.scopes,
+                &authorizer_trusted_origins,
+                usize::MAX,
+                &authorizer.public_key_to_block_id,
+            );
+            authorizer
+                .world
+                .rules
+                .insert(usize::MAX, &rule_trusted_origins, rule);
+        }
+
         Ok(authorizer)
     }
 }
